@@ -33,8 +33,8 @@ m("m15e", "C15", "sqllineage/config.py",
   "stores keys before all are validated (the repaired defect, reintroduced)")
 m("m15f", "C15", "sqllineage/config.py",
   "                value = int(value) != 0\n",
-  "                value = bool(value) if not isinstance(value, str) else int(value) != 0\n",
-  "coercion change that keeps strings; (bool) kept for non-strings")
+  "                value = int(value) > 0\n",
+  "integers coerced by > 0 instead of != 0 (negative values flip)")
 m("m15g", "C15", "sqllineage/config.py",
   "            self._thread_config.pop(self.get_ident())\n",
   "            self._thread_config[self.get_ident()] = {}\n            if exc_type is not None:\n                return\n",
